@@ -1,5 +1,6 @@
 import Receptor.Drive.Util
 import Receptor.Model.Bridge
+import Receptor.Model.StreamEnd
 import Receptor.Generated.Facts
 namespace Receptor.Drive.Stream
 open Lean Receptor.Drive Receptor.Bridge
@@ -12,7 +13,11 @@ def writeThenCheck : Bool :=
 
 /-- does the listener accept a stream whose initial byte arrives together with the end of the stream? -/
 def byteWithEofAccepted : Bool :=
-  Receptor.Facts.stream_first_byte = "dial:write(0);accept:read(1);byte-with-eof:accepted;check(n==1,byte==0)"
+  match Receptor.StreamEnd.accept
+      (decide (Receptor.Facts.stream_first_byte = "dial:write(0);accept:read(1);byte-with-eof:accepted;check(n==1,byte==0)"))
+      [⟨[0], true⟩] with
+  | .accepted _ => true
+  | _ => false
 
 def handle (op : String) (a r : Json) : Except String Reply := do
   match op with
